@@ -354,6 +354,7 @@ def r19g(chk, rid='R19.g'):
     for label, enctype, cssText, parent_href in (
         ('override', 0, 'a{}', 'http://h/css/site.css'), ('transport charset', 1, 'a{}', 'http://h/css/site.css'), ('BOM/@charset', 3, 'a{}', 'http://h/css/vendor/vendor.css'),
         ('utf-8 default', 5, 'a{}', 'http://h/css/site.css'), ('unreadable target', 1, None, 'http://h/css/site.css'), ('failing fetch', 1, 'raise', 'http://h/css/site.css'),
+        ('an empty but existing target', 1, '', 'http://h/css/site.css'),
     ):
         fetched, handed = [], []
 
@@ -387,7 +388,7 @@ def r19g(chk, rid='R19.g'):
             ok = ok and me.hrefFound is False and not handed
             want = 'fetched once, rule left unresolved'
         else:
-            want_hand = [('a{}', 'enc' if enctype == 0 else None, 'enc' if 0 < enctype < 5 else None)]
+            want_hand = [(cssText, 'enc' if enctype == 0 else None, 'enc' if 0 < enctype < 5 else None)]
             ok = ok and me.hrefFound is True and handed == want_hand and getattr(me._styleSheet, '_href', None) == want_url
             want = f'fetched once; text and encodings handed on as {want_hand}'
         chk.ob(rid, rel, 'CSSImportRule._setHref', f'{label} (encoding type {enctype}): {want}', ok,
